@@ -93,7 +93,57 @@ def run_shard(ctx):
     res = ctx.res
     drv = ctx.driver(ui=True)
     cfg = mon.cfg_with()
+    # a second calculator with a user-defined unit family whose words stand in front of / behind the number
+    fam_setup = ([{'op': 'new_calc', 'c': 8, 'seg': True}] + gh.config_ops(cfg, 8, seg=False) + [{'op': 'add_type', 'c': 8, 'name': 'game'}] +
+                 [{'op': 'add_type_item', 'c': 8, 'name': 'game', 'index': 1, 'format': 'lvl {value}', 'parse': ['{TEXT:type:lvl} {NUMBER:value}'], 'up': '{value} / 10',
+                   'down': '{value}', 'names': ['lvl']},
+                  {'op': 'add_type_item', 'c': 8, 'name': 'game', 'index': 2, 'format': '{value} tier', 'parse': ['{NUMBER:value} {TEXT:type:tier}'], 'up': '{value}',
+                   'down': '{value} * 10', 'names': ['tier']}])
+    drv.run(fam_setup)
     while not ctx.out_of_time():
+        # number literals next to the words of a user-defined unit are still reported as Number tokens covering exactly their digits
+        fam_lines = []
+        for _ in range(12):
+            n1, n2 = str(rng.randint(0, 99999)), str(rng.randint(1, 999))
+            lead = rng.choice(['', '', 'çay ', '  '])
+            tpl = rng.choice(['lvl {a}', 'lvl {a} + {b}', '{a} tier', 'lvl {a} to tier', '{a} tier + lvl {b}', '{b} * 2 + lvl {a}'])
+            line = lead + tpl
+            spans = []
+            for key_, val in (('{a}', n1), ('{b}', n2)):
+                if key_ in line:
+                    at = line.index(key_)
+                    line = line.replace(key_, val, 1)
+                    spans.append((at, at + len(val), 'Number'))
+            # positions of the first placeholder shift when the second is longer/shorter only if it comes first: recompute
+            spans = [(m.start(), m.end(), 'Number') for m in re.finditer(r'[0-9]+', line)]
+            fam_lines.append((line, spans))
+        rs = drv.run([{'op': 'execute', 'c': 8, 'lang': 'en', 'text': ln} for ln, _ in fam_lines])
+        for (line, spans), r in zip(fam_lines, rs):
+            if 'lines' not in r:
+                if 'panic' not in r:
+                    drv.run(fam_setup)
+                continue
+            slot = r['lines'][0] if r['lines'] else None
+            if slot is None:
+                continue
+            ui = slot.get('ui', [])
+            res.cases += 1
+            res.count('class:user-unit-lines')
+            res.distinct.add('fam', line)
+            why = wellformed(ui, len(line))
+            sig = 'ui:malformed:user-unit' if why else None
+            if not why:
+                have = {(t[0], t[1]): t[2] for t in ui}
+                for (s_, e_, kind) in spans:
+                    if have.get((s_, e_)) != kind:
+                        why = 'expected a Number token for %r at [%d, %d), tokens are %r' % (line[s_:e_], s_, e_, ui)
+                        sig = 'ui:span:Number:user-unit'
+                        break
+            if why is None:
+                res.count('ok')
+            else:
+                res.violation(sig, '%r on a calculator with the user units "lvl N" / "N tier": %s' % (line, why),
+                              {'lang': 'en', 'text': line, 'tokens': ui, 'ops': [{'op': 'opts', 'ui': True}] + fam_setup + [{'op': 'execute', 'c': 8, 'lang': 'en', 'text': line}]})
         items, meta = [], []
         for _ in range(150):
             r = rng.random()
